@@ -85,7 +85,7 @@ def ch_crc(ctx):
         msgs.append(bytes(rng.randrange(256) for _ in range(n)))
     lines = [f"crc {m.hex() or '-'}" for m in msgs]
     try:
-        model = common.run_driver(lines)
+        model = E.run_driver(lines)
     except Exception as e:
         ch.errors.append(f"driver: {e}")
         return ch
@@ -126,7 +126,8 @@ def emsg_oracle_on_real(case):
     segs = E.real_boxes(case)
     bad = [s for s in segs if isinstance(s, str)]
     if bad:
-        return [f"create_emsg_boxes raised {bad[0]}"]
+        return [f"create_emsg_boxes raised {bad[0]}" if bad[0] != "NonTermination" else
+                "create_emsg_boxes did not terminate (time limit 10 s)"]
     return E.oracle_run(case, [[E.box_fields(b) for b in seg] for seg in segs])
 
 
@@ -164,7 +165,7 @@ def ch_emsg(ctx):
     n = ctx.scale(2500, 45000)
     cases += [E.gen_case(rng, ctx.thorough) for _ in range(n)]
     try:
-        model = common.run_driver([E.driver_line(c) for c in cases])
+        model = E.run_driver([E.driver_line(c) for c in cases])
     except Exception as e:
         ch.errors.append(f"driver: {e}")
         return [ch, box_ch]
@@ -231,7 +232,7 @@ def ch_emsg(ctx):
     # payloads
     if sig_lines:
         try:
-            out = common.run_driver(sig_lines)
+            out = E.run_driver(sig_lines)
             for (c, k, hx), mo in zip(sig_expect, out):
                 ch.count("scte35 payloads compared")
                 if hx != mo:
@@ -260,8 +261,8 @@ def _emsgbox(ch: Channel, jobs):
                          f"{f['value'].encode().hex() or '-'} {f['timescale']} {t} {f['duration']} {f['id']} "
                          f"{f['data'].hex() or '-'}")
     try:
-        enc_model = common.run_driver(enc_lines)
-        parse_model = common.run_driver([f"emsgparse {d.hex() or '-'}" for d in datas])
+        enc_model = E.run_driver(enc_lines)
+        parse_model = E.run_driver([f"emsgparse {d.hex() or '-'}" for d in datas])
     except Exception as e:
         ch.errors.append(f"driver: {e}")
         return
@@ -378,7 +379,7 @@ def ch_oob(ctx):
     lines = [f"oob {s['start']} {s['interval']} {s['count']} {s['duration']} {1 if s['inband'] else 0}"
              for _, s in cases]
     try:
-        model = common.run_driver(lines)
+        model = E.run_driver(lines)
     except Exception as e:
         ch.errors.append(f"driver: {e}")
         return ch
@@ -471,7 +472,7 @@ def ch_scte35(ctx):
             ch.oracle_failures.append({"channel": "scte35", "signal": S.norm(sig),
                                        "failures": [f"encode raised {type(e).__name__}: {e}"]})
     try:
-        enc_model = common.run_driver(["scte35enc " + S.fmt_signal(s) for s in sigs])
+        enc_model = E.run_driver(["scte35enc " + S.fmt_signal(s) for s in sigs])
     except Exception as e:
         ch.errors.append(f"driver: {e}")
         return ch
@@ -492,7 +493,7 @@ def ch_scte35(ctx):
             i = rng.randrange(5, 9)        # low bits of pts_adjustment
             parse_inputs.append(("payload-flip", sig, data[:i] + bytes([data[i] ^ (1 << rng.randrange(8))]) + data[i + 1:]))
     try:
-        parse_model = common.run_driver([f"scte35parse {d.hex() or '-'}" for _, _, d in parse_inputs])
+        parse_model = E.run_driver([f"scte35parse {d.hex() or '-'}" for _, _, d in parse_inputs])
     except Exception as e:
         ch.errors.append(f"driver: {e}")
         return ch
@@ -723,6 +724,18 @@ def replay_finding(ctx, finding):
         want = w["sched"]["count"]
         # D13g: schedule unbounded (count <= 0) and out-of-band, yet nothing is listed
         return (not w["sched"]["inband"]) and want <= 0 and listed == []
+    if chn == "emsg_encode":
+        # D13j: the boxes (or their SCTE-35 payload) cannot be encoded when the id needs > 32 bits
+        try:
+            segs = E.real_boxes(w)
+            if any(isinstance(x, str) for x in segs):
+                return True
+            for seg in segs:
+                for b in seg:
+                    b.encode()
+            return False
+        except Exception:
+            return True
     if chn == "scte35_variants":
         still = [v for v in w["variants"] if _variant_fails(v)]
         return bool(still)
@@ -732,16 +745,29 @@ def replay_finding(ctx, finding):
     return False
 
 
+def _max_id(case) -> int:
+    s = case["sched"]
+    _, bl = E.seg_interval(s, case["rep_timescale"], *case["run"][-1])
+    return (bl - s["start"]) // s["interval"] if s["interval"] > 0 else 0
+
+
 def matches_finding(finding, failure):
     w = finding.get("witness", {})
-    if w.get("channel") == "emsg" and finding["id"].startswith("D13a") and \
+    if finding["id"].startswith("D13j") and failure.get("channel") in ("emsg", "events_e2e") and \
+            "case" in failure and "run" in failure["case"]:
+        try:
+            return _max_id(failure["case"]) >= 2 ** 32
+        except Exception:
+            return False
+    if finding["id"].startswith("D13a") and \
             failure.get("channel") in ("emsg", "events_e2e") and "case" in failure:
         c = failure["case"]
         try:
             if "run" in c and not E.contiguous(c):
                 # only the drift-gap symptom: events missing, nothing misplaced / duplicated / unscheduled
                 fl = " ".join(failure.get("failures", []))
-                return "missing" in fl and "does not contain" not in fl and "not in the schedule" not in fl
+                return "does not contain" not in fl and "not in the schedule" not in fl and \
+                    "does not resolve" not in fl and "payload" not in fl
         except Exception:
             return False
     if w.get("channel") == "oob" and failure.get("channel") == "oob":
